@@ -11,10 +11,13 @@
    wf e: weights positive; LScal scalar > 0; RScal scalar <> 0; QPert coefficient >= 0; translation /
    linear term of the right length; leaves among L1Norm, L2Norm, L2NormSquared, ConstantFunctional,
    IndicatorBox/Nonnegativity, IndicatorZero, IndicatorLpUnitBall(inf), IndicatorLpUnitBall(2),
-   Huber(gamma >= 0).   (LpNorm(inf), IndicatorLpUnitBall(1), IndicatorSimplex, the group norms and KL are
-   modelled and tied by the correspondence; see the partial theorems at the end.)                   *)
+   Huber(gamma >= 0), GroupL1Norm(exponent 1), IndicatorGroupL1UnitBall(exponent inf) on ANY positively
+   weighted space; IndicatorSimplex(diameter >= 0) on a uniformly weighted space; LpNorm(inf) and
+   IndicatorLpUnitBall(1) on an unweighted space (their proximals are NOT minimisers on other weightings:
+   recorded findings, see C07/Refuted.v).  The pointwise-2-norm group functionals and the KL family are
+   modelled and tied by the correspondence only.                                                        *)
 From Coq Require Import Reals Lra List Bool.
-From Verif Require Import Base.Num Base.Vec Base.VecR C07.Model C07.Convex C07.Leaves C07.LeafThms C07.Rules C07.L2 C07.Compose C07.Proofs.
+From Verif Require Import Base.Num Base.Vec Base.VecR C07.Model C07.Convex C07.Leaves C07.LeafThms C07.Rules C07.L2 C07.Compose C07.Sorting C07.Proofs.
 Import ListNotations.
 Local Open Scope R_scope.
 
@@ -207,6 +210,28 @@ Theorem factory_convex_conj_l1 : forall lam n (g w : list R) (s : R) (x : list R
   is_proxs n (F_ccl1 lam g w) (metric w (repeat s n)) x (prox_cc_l1 lam (Some g) s x).
 Proof. exact ccl1_factory_prox. Qed.
 Print Assumptions factory_convex_conj_l1.
+
+(* The sort-based projections, all sizes: proj_simplex (insertion sort, running averages, last index with
+   x_sor[j] - avg[j] >= 0) returns max(x - tau, 0) with sum max(x_i - tau, 0) = diameter; it is the proximal
+   point of IndicatorSimplex on a uniformly weighted space. *)
+Theorem proj_simplex_threshold : forall (d : R) (x : list R), 0 <= d -> x <> [] ->
+  exists tau, proj_simplex d x = Ok (map (fun a => Rmax (a - tau) 0) x) /\
+              sumf (map (fun a => Rmax (a - tau) 0) x) = d.
+Proof. exact proj_simplex_spec. Qed.
+Print Assumptions proj_simplex_threshold.
+Theorem indicator_simplex_prox : forall n (d k : R) (w x : list R), 0 <= d -> 0 < k -> length x = n -> (1 <= n)%nat ->
+  exists p, proj_simplex d x = Ok p /\ is_proxs n (leaf_val (FSimplex d) w) (repeat k n) x p.
+Proof. exact simplex_leaf_prox. Qed.
+(* proj_l1 / IndicatorLpUnitBall(1) and the L-infinity proximal x - proj_l1(x, sigma), unweighted space *)
+Theorem indicator_l1_ball_prox : forall n (k : R) (x : list R), 0 < k -> length x = n -> (1 <= n)%nat ->
+  exists p, leaf_prox FBall1 (repeat 1 n) (SScal 1) x = Ok p /\
+            is_proxs n (leaf_val FBall1 (repeat 1 n)) (repeat k n) x p.
+Proof. exact ball1_leaf_prox. Qed.
+Theorem linfty_prox : forall n (sigma : R) (x : list R), 0 < sigma -> length x = n -> (1 <= n)%nat ->
+  exists p, leaf_prox FLInf (repeat 1 n) (SScal sigma) x = Ok p /\
+            is_proxs n (leaf_val FLInf (repeat 1 n)) (repeat (/ sigma) n) x p.
+Proof. exact linf_leaf_prox. Qed.
+Print Assumptions linfty_prox.
 
 (* non-vacuity: a weighted, translated, scaled, perturbed separable tree is well-formed *)
 Example wf_example :
